@@ -27,17 +27,24 @@ impl Script {
 //@stub Script::to_bytes
 //@fn Script::strip_codeseparators
 //@fn Script::remove_codeseparators
+//@stubrest Script
 }
 impl TxIn {
 //@fn TxIn::set_unlocking_script
 //@fn TxIn::set_sequence
+//@stubrest TxIn
 }
 impl TxOut {
 //@stub TxOut::new
+//@stubrest TxOut
 }
 impl Transaction {
 //@stub Transaction::get_input
+//@stub Transaction::get_ninputs
+//@stub Transaction::get_version
+//@stub Transaction::get_n_locktime
 //@stub Transaction::get_output
+//@stub Transaction::get_noutputs
 //@stub Transaction::set_input
 //@stub Transaction::set_output
 //@stub Transaction::add_input
@@ -45,6 +52,7 @@ impl Transaction {
 //@stub Transaction::sighash_bip143
 //@fn Transaction::sighash_legacy
 //@fn Transaction::sighash_preimage_impl
+//@stubrest Transaction
 }
 } // verus!
 fn main() {}
